@@ -40,6 +40,7 @@ structure Cfg where
   pendingWrite : Bool := false
   ndots : Nat := 1
   domains : List String := []     -- search domains (hex of text form)
+  lookups : String := "b"
   deriving Repr, Inhabited
 
 def Cfg.flag (c : Cfg) (bit : Nat) : Bool := (c.flags / (2 ^ bit)) % 2 = 1
@@ -217,6 +218,17 @@ structure Client where
   edns : Bool := false
   timeouts : Nat := 0
   everNodata : Bool := false
+  -- ares_getaddrinfo (struct host_query)
+  name : String := ""          -- the name as given (hex)
+  family : Nat := 0            -- AF_UNSPEC 0 / AF_INET 2 / AF_INET6 10
+  lookups : List Char := []    -- remaining_lookups
+  remaining : Nat := 0         -- DNS answers still waited for
+  nodataCnt : Nat := 0
+  addrs : List String := []    -- collected nodes, rendered "addr/ttl"
+  hasV4 : Bool := false
+  aiName : String := ""        -- ai->name (hex)
+  qidA : Nat := 0
+  qidAAAA : Nat := 0
   deriving Repr, Inhabited
 
 structure CacheEntry where
@@ -276,6 +288,7 @@ structure St where
   destroyed : Bool := false
   destroying : Bool := false
   selfVariant : Nat := 0           -- local address the virtual OS currently reports
+  lastQid : Nat := 0               -- id of the query created by the latest ares_send_nolock
   clients : List Client := []
   nextClient : Nat := 0
   reactSeq : Nat := 0
